@@ -383,6 +383,25 @@ func c16sid(c *Ctx, b []byte) string {
 		c.Outcome("SIDBytesToString:error")
 	default:
 		c.Outcome("SIDBytesToString:ok")
+		// reference: revision, count, 6 bytes of authority, count x 4 bytes of sub-authorities; fewer bytes
+		// than that is no SID (what follows a complete SID is ignored by the function, and by this reference)
+		if len(b) < 8 || len(b) < 8+4*int(b[1]) {
+			c.Report("SIDBytesToString accepts a truncated SID (invalid input must yield an error)", fmt.Sprintf("%x (%d bytes, sub-authority count %d) -> %q", b, len(b), func() int {
+				if len(b) > 1 {
+					return int(b[1])
+				}
+				return -1
+			}(), s), c16rep{Fn: "SIDBytesToString", Args: []string{hex.EncodeToString(b)}})
+		} else {
+			want := fmt.Sprintf("S-%d-%d", b[0], uint64(b[2])<<40|uint64(b[3])<<32|uint64(b[4])<<24|uint64(b[5])<<16|uint64(b[6])<<8|uint64(b[7]))
+			for j := 0; j < int(b[1]); j++ {
+				o := 8 + 4*j
+				want += fmt.Sprintf("-%d", uint32(b[o])|uint32(b[o+1])<<8|uint32(b[o+2])<<16|uint32(b[o+3])<<24)
+			}
+			if s != want {
+				c.Report("SIDBytesToString formats a well-formed SID wrongly", fmt.Sprintf("bytes=%x got %q want %q", b, s, want), c16rep{Fn: "SIDBytesToString", Args: []string{hex.EncodeToString(b)}})
+			}
+		}
 		if !strings.HasPrefix(s, "S-") {
 			c.Report("SIDBytesToString returned a malformed string", fmt.Sprintf("%x -> %q", b, s), c16rep{Fn: "SIDBytesToString", Args: []string{hex.EncodeToString(b)}})
 		}
